@@ -173,7 +173,17 @@ static int on_term_mouse(TickitTerm *term, TickitEventFlags flags, void *_info, 
       .col    = root->mouse_last_col,
     };
 
-    root->drag_source_window = _handle_mouse(win, &draginfo);
+    /* The window that takes DRAG_START becomes the drag source, unless its
+     * handler took it (or a window above it) out of the tree: the pointer kept
+     * is uncounted, and only windows in the tree are forgotten in time */
+    TickitWindow *source = _handle_mouse(win, &draginfo);
+    root->drag_source_window = NULL;
+    if(source) {
+      for(TickitWindow *w = source; w; w = w->parent)
+        if(w == win)
+          root->drag_source_window = source;
+      tickit_window_unref(source);
+    }
     root->mouse_dragging = true;
   }
   else if(info->type == TICKIT_MOUSEEV_RELEASE && root->mouse_dragging) {
@@ -184,7 +194,9 @@ static int on_term_mouse(TickitTerm *term, TickitEventFlags flags, void *_info, 
       .col    = info->col,
     };
 
-    _handle_mouse(win, &draginfo);
+    TickitWindow *dropped = _handle_mouse(win, &draginfo);
+    if(dropped)
+      tickit_window_unref(dropped);
 
     if(root->drag_source_window) {
       TickitRect geom = tickit_window_get_abs_geometry(root->drag_source_window);
@@ -195,7 +207,9 @@ static int on_term_mouse(TickitTerm *term, TickitEventFlags flags, void *_info, 
         .col    = info->col  - geom.left,
       };
 
-      _handle_mouse(root->drag_source_window, &draginfo);
+      TickitWindow *stopped = _handle_mouse(root->drag_source_window, &draginfo);
+      if(stopped)
+        tickit_window_unref(stopped);
     }
 
     root->mouse_dragging = false;
@@ -214,12 +228,18 @@ static int on_term_mouse(TickitTerm *term, TickitEventFlags flags, void *_info, 
       .col    = info->col  - geom.left,
     };
 
-    _handle_mouse(root->drag_source_window, &draginfo);
+    TickitWindow *outside = _handle_mouse(root->drag_source_window, &draginfo);
+    if(outside)
+      tickit_window_unref(outside);
   }
+
+  int ret = !!handled;
+  if(handled)
+    tickit_window_unref(handled);
 
   tickit_window_unref(win);
 
-  return !!handled;
+  return ret;
 }
 
 static void init_window(TickitWindow *win, TickitWindow *parent, TickitRect rect)
@@ -1413,6 +1433,7 @@ done:
   return ret;
 }
 
+/* Returns a counted reference to the window that took the event, or NULL */
 static TickitWindow *_handle_mouse(TickitWindow *win, TickitMouseEventInfo *info)
 {
   if(!win->is_visible)
@@ -1443,19 +1464,17 @@ static TickitWindow *_handle_mouse(TickitWindow *win, TickitMouseEventInfo *info
       goto done;
   }
 
-  ret = win;
-  if(run_events_whilefalse(win, TICKIT_WINDOW_ON_MOUSE, info))
+  if(run_events_whilefalse(win, TICKIT_WINDOW_ON_MOUSE, info)) {
+    /* The handler may have closed this window or dropped every other
+     * reference to it; its claim stands all the same, so the caller gets a
+     * reference of its own */
+    ret = tickit_window_ref(win);
     goto done;
+  }
 
   ret = NULL;
   /* fallthrough */
 done:
-  /* A handler may have closed this window or dropped the last other reference
-   * to it (it is then destroyed by the unref below). Neither it nor a window
-   * below it can be reported as having taken the event: the caller may keep
-   * the pointer as the drag source */
-  if(win->is_closed || win->refcount == 1)
-    ret = NULL;
   tickit_window_unref(win);
 
   return ret;
